@@ -69,11 +69,15 @@ package route
 //@ ghost var sdHooks bool
 // sdCtx: the context WithTimeout returned (the one that carries the exit wait time)
 //@ ghost var sdCtx int
+// sdDone: the done channel of that context; the wait for the shutdown hooks (the only blocking wait of Shutdown
+// itself) has it among its cases, so the hooks cannot hold Shutdown beyond the one deadline
+//@ ghost var sdDone int
+//@ ghost var sdDoneSet bool
 //@ func Engine.Shutdown(engine, ctx) err
 //@   props C18
 //@   abstract
 //@   noinline
-//@   modifies sdSwapped, sdDeadline, sdHooks, sdCtx
+//@   modifies sdSwapped, sdDeadline, sdHooks, sdCtx, sdDone, sdDoneSet
 //@   ghostset-at-entry sdSwapped = false
 //@   ghostset-at-entry sdDeadline = false
 //@   ghostset-at-entry sdHooks = false
@@ -84,6 +88,11 @@ package route
 //@   assert before go: sdSwapped && sdDeadline
 //@   assert before Deregister: sdSwapped && sdDeadline && sdHooks
 //@   assert before Shutdown: sdSwapped && sdDeadline && sdHooks && arg1 == sdCtx
+//@   ghostset-at-entry sdDoneSet = false
+//@   assert before Done: sdDeadline && arg0 == sdCtx
+//@   ghostset after Done: sdDone = result
+//@   ghostset after Done: sdDoneSet = true
+//@   assert before select: sdDoneSet && (arg0 == sdDone || arg1 == sdDone)
 
 // ---- C12 (dispatch): the engine runs handlers only through the chain interpreter: it installs a chain
 // (SetHandlers) and then calls Next, or goes through serveError, which does the same; it never calls a handler
